@@ -246,6 +246,15 @@ def round_trip(val, cfg):
             return "print-error:" + type(e).__name__, str(e)[:80], None
         if text != text2:
             return "nondeterministic", text2, text
+        if cfg.get("dup"):
+            # *print-dup* claims readability whatever *print-length* says: the text must not be elided
+            rt.push_thread_bindings(lmap.map({vs["*print-length*"]: 1}))
+            try:
+                text3 = R["pr_str"](val)
+            finally:
+                rt.pop_thread_bindings()
+            if text3 != text:
+                return "print-dup-elided-by-print-length", text3, text
         try:
             forms = list(R["reader"].read_str(text))
         except Exception as e:  # noqa
